@@ -177,7 +177,7 @@ pub fn nontrivial(prop: &str, s: &CaseStats) -> bool {
         "C09" => s.par_nontrivial >= 1,
         "C10" => (s.clone_dst_extra_arch + s.clone_src_empty_arch >= 1) && s.mutations_after_clone[0] >= 1 && s.mutations_after_clone[1] >= 1,
         "C13" => s.audits_after_change >= 1,
-        "C15" => s.res_writes >= 1 && s.ops_run > s.res_writes as usize + 2,
+        "C15" => s.res_multi >= 1 && s.ops_run > s.res_writes as usize + 2,
         "C16" => s.eq_pairs_equal_snap >= 1 || s.eq_pairs_differ >= 1,
         _ => s.ops_run > 0,
     }
@@ -206,6 +206,7 @@ fn add_classes(classes: &mut BTreeMap<String, u64>, s: &CaseStats) {
     add("audits", s.audits as u64);
     add("audits_after_free_list_or_table_change", s.audits_after_change as u64);
     add("resource_writes", s.res_writes as u64);
+    add("multi_resource_views_out_of_list_order_with_write", s.res_multi as u64);
     add("eq_pairs_with_equal_contents", s.eq_pairs_equal_snap as u64);
     add("eq_pairs_with_different_contents", s.eq_pairs_differ as u64);
     add("eq_true", s.eq_true as u64);
